@@ -762,7 +762,12 @@ func (c *Conn) finish(r *Ctx, stream uint32, err error) {
 		atomic.AddInt32(&c.openStreams, -1)
 	}
 
-	c.deletePending(stream)
+	// dispatch holds r while this runs, and r is the Ctx the pending body
+	// belongs to, so its stream is closed here directly: deletePending would
+	// take the Ctx a second time, and the lock is not reentrant.
+	if pb := c.dropPending(stream); pb != nil {
+		c.closeBodyStream(pb)
+	}
 
 	r.markFinished()
 	r.resolve(err)
@@ -1065,11 +1070,18 @@ func (c *Conn) signalWindow() {
 	}
 }
 
-func (c *Conn) deletePending(id uint32) {
+// dropPending forgets what is left of a request body and returns it.
+func (c *Conn) dropPending(id uint32) *pendingBody {
 	c.sendLck.Lock()
 	pb := c.pending[id]
 	delete(c.pending, id)
 	c.sendLck.Unlock()
+
+	return pb
+}
+
+func (c *Conn) deletePending(id uint32) {
+	pb := c.dropPending(id)
 
 	if pb == nil || pb.stream == nil {
 		return
